@@ -21,7 +21,7 @@ BOUNDS = {"method sets": "2-3 methods, failing method at each position"}
 
 
 def tasks(tier):
-    return _core.failure_tasks() + _core.built_flag_tasks() + _core.trampoline_tasks() + _tm.mtm_missing_tasks(("plain", "coded")) + _tm.resolve_tasks("quick")[:6] + _tm.resolve_interrupt_tasks()
+    return _core.failure_tasks() + _core.built_flag_tasks() + _core.descriptor_tasks() + _core.trampoline_tasks() + _tm.mtm_missing_tasks(("plain", "coded")) + _tm.resolve_tasks("quick")[:6] + _tm.resolve_interrupt_tasks()
 
 
 def conformance(tier):
